@@ -142,7 +142,7 @@ def check_props(pid):
     if not os.path.exists(os.path.join(COQ, f)):
         return dict(ok=False, theorems=[], log='missing ' + f, cmd='')
     cmd = 'coqc -Q theories BNP %s' % f
-    rc, out = sh('flock %s/.buildlock %s' % (WORK, cmd), timeout=900, cwd=COQ)
+    rc, out = sh('flock %s/.buildlock timeout 900 %s' % (WORK, cmd), timeout=4000, cwd=COQ)
     names = re.findall(r'^\s*Theorem\s+([\w\']+)', open(os.path.join(COQ, f)).read(), re.M)
     # Print Assumptions output: either "Closed under the global context" or "Axioms:\n ..."
     blocks = re.split(r'(?=Closed under the global context|Axioms:)', out)
@@ -165,12 +165,15 @@ def zl(xs):
 
 
 def hx(b):
-    """bytes -> Coq term of type list Z (hex string literal decoded inside Coq)."""
+    """bytes -> Coq term of type list Z (hex string literal decoded inside Coq; long texts are split)."""
     if isinstance(b, str):
         b = b.encode('latin1')
+    b = bytes(b)
     if len(b) == 0:
         return '(@nil Z)'
-    return '(unhex "%s")' % bytes(b).hex()
+    if len(b) <= 2000:
+        return '(unhex "%s")' % b.hex()
+    return '(' + ' ++ '.join('unhex "%s"' % b[i:i + 2000].hex() for i in range(0, len(b), 2000)) + ')%list'
 
 
 def cbool(b):
@@ -454,7 +457,10 @@ def run_check(pid, tier='quick', replay=None):
             pass
     samples = []
     for c, o in list(zip(cases, obs))[:: max(1, len(cases) // 3)][:3]:
-        samples.append(mod.describe(c, o) if hasattr(mod, 'describe') else dict(case=c, observed=o))
+        try:
+            samples.append(mod.describe(c, o) if hasattr(mod, 'describe') else dict(case=c, observed=o))
+        except Exception:
+            samples.append(dict(case=c, observed=o))
     dist = mod.distribution(cases, obs) if hasattr(mod, 'distribution') else {}
     ev = dict(
         property_id=pid, tier=tier, seed=seed, level='proof',
